@@ -410,7 +410,7 @@ def lit_case(c, o):
     elif k == "halt": evs.append("EHalt %d" % e[1])
     elif k == "terminate": evs.append("ETerminate")
     elif k == "play_raise": evs.append("EPlayRaise")
-    elif k == "assert_fail": evs.append("EAssertFail")
+    elif k in ("assert_fail", "close_raise"): evs.append("EAssertFail")      # a close that raised
     elif k == "close_ret":
       evs.append("ECloseRet %s" % L.lst(["(%s, %s)" % (L.boolean(a), L.boolean(h)) for a, h in e[1]]))
   pls = []
@@ -538,12 +538,98 @@ def nontrivial_multi(c, o):
   return preemptions(o.get("steps", [])) >= 1
 
 
+# ---------------------------------------------------------------------------- recordings (Rec.v)
+def gen_rec(tier, rng):
+  """Histories with 0..3 record() calls mixed with play / pause / stop; some recordings are stopped and
+  consumed before close (also in non-last positions), some finish by themselves on a device error while
+  others are still open; then close (sometimes twice, sometimes followed by stop / take)."""
+  n = 260 if tier == "quick" else 4000
+  fixed = [
+    [["record", 4, 9], ["record", 4, 9], ["close"]],                       # C17-close-two-recordings
+    [["record", 2, 9], ["record", 2, 9], ["record", 2, 9], ["close", "with"]],
+    [["record", 2, 5], ["record", 2, 5], ["record", 3, 1], ["rec_take", 1, 3], ["rec_stop", 1], ["rec_take", 1, 9],
+     ["rec_take", 0, 2], ["rec_take", 2, 4], ["close"]],
+    [["record", 1, 0], ["record", 2, 3], ["rec_take", 0, 1], ["close"]],   # finishes by itself, other still open
+  ]
+  for h in fixed:
+    yield {"wait": True, "script": h, "seed": 0, "tags": ["rec fixed"]}
+  for _ in range(n):
+    nrec = rng.choice([0, 1, 2, 2, 3, 3])
+    h = []
+    for i in range(nrec):
+      h.append(["record", rng.choice([1, 2, 3, 4]), rng.choice([0, 1, 2, 9, 9])])
+    nplay = rng.choice([0, 0, 1, 2])
+    for k in range(nplay):
+      h.insert(rng.randrange(len(h) + 1), with_format(play(k, rng.randrange(0, 4), 2, 1, rng.random() < 0.5), "f", rng))
+    for _k in range(rng.randrange(0, 7)):
+      r = rng.random()
+      if nrec and r < 0.45:
+        x = ["rec_take", rng.randrange(nrec), rng.choice([1, 2, 3, 5, 9])]
+      elif nrec and r < 0.7:
+        x = ["rec_stop", rng.randrange(nrec)]
+      elif nplay:
+        x = [rng.choice(["pause", "resume", "stop"]), rng.randrange(nplay)]
+      else:
+        continue
+      # an operation on a recording only after that recording exists
+      lo = 0
+      if x[0].startswith("rec_"):
+        lo = [j for j, c in enumerate(h) if c[0] == "record"][x[1]] + 1
+      h.insert(rng.randrange(lo, len(h) + 1), x)
+    if rng.random() < 0.9:
+      h.append(["close", rng.choice(VIAS)])
+      for _k in range(rng.randrange(0, 3)):
+        r = rng.random()
+        h.append(["close", rng.choice(VIAS)] if r < 0.4 or not nrec else
+                 (["rec_take", rng.randrange(nrec), 2] if r < 0.7 else ["rec_stop", rng.randrange(nrec)]))
+    yield {"wait": rng.random() < 0.5, "script": h, "seed": rng.getrandbits(30),
+           "tags": ["rec random", "nrec=%d" % nrec, "nplay=%d" % nplay]}
+
+
+def run_rec(c):
+  import random
+  r = random.Random(c["seed"])
+  def ch(i, en, cur):
+    if cur in en and r.random() >= 0.3:
+      return cur
+    return en[r.randrange(len(en))]
+  return S.run_schedule(c["wait"], c["script"], ch, max_steps=MAX_STEPS)
+
+
+def lit_rec(c, o):
+  ops = []
+  for cmd in c["script"]:
+    if cmd[0] == "record": ops.append("ORecord %d %d" % (cmd[1], cmd[2]))
+    elif cmd[0] == "rec_stop": ops.append("ORStop %d" % cmd[1])
+    elif cmd[0] == "rec_take": ops.append("ORTake %d %d" % (cmd[1], cmd[2]))
+    elif cmd[0] == "close": ops.append("ORClose")
+  fin = o.get("final") or {}
+  rec = fin.get("rec") or {"outs": [], "recs": [], "open": [], "reads": []}
+  outs = []
+  for x in rec["outs"]:
+    outs.append("RNone" if x is None else ("RRaise" if x == "raise" else "RSamples %s" % L.lst([L.z(v) for v in x])))
+  raised = any(e[0] in ("close_raise", "assert_fail") for e in o.get("events", [])) or o.get("status") not in (
+    "completed", "deadlock")
+  outputs_closed = all(not p["open"] for p in fin.get("players", []))
+  return "(RC %s %s %s %s %s %d %s %s)" % (
+    L.lst(ops), L.lst(outs), L.lst([str(min(x, 999)) for x in rec["recs"]]), L.lst([L.boolean(b) for b in rec["open"]]),
+    L.lst([str(min(x, 4999)) for x in rec["reads"]]), fin.get("terminated", 0), L.boolean(raised),
+    L.boolean(outputs_closed))
+
+
+def nontrivial_rec(c, o):
+  k = [x[0] for x in c["script"]]
+  return k.count("record") >= 2 and "close" in k
+
+
 IMPORTS = "From AL Require Import C17.Model C17.Spec C17.Check."
 PRE = "Open Scope nat_scope."
 
 FAMILIES = {
   "sched": Family("sched", IMPORTS, "scase", "corr_sched", "holds_sched", gen_sched, run_sched, lit_case,
                   nontrivial, None, timeout=150, preamble=PRE),
+  "rec": Family("rec", "From AL Require Import C17.Rec.", "rcase", "corr_rec", "holds_rec", gen_rec, run_rec, lit_rec,
+                nontrivial_rec, None, timeout=150, preamble=PRE),
   "multi": Family("multi", IMPORTS, "list scase", "corr_multi", "holds_multi", gen_multi, run_multi, lit_multi,
                   nontrivial_multi, None, timeout=150, preamble=PRE),
 }
